@@ -37,7 +37,8 @@ def generate(seed, scratch):
     return {"property": PID, "seed": seed, "world": world, "cfg": cfg,
             "schedule": {"fault_free": fault_free, "cli": True, "evict": "all" if rs.random() < 0.2 else None,
                          # terminal verbosity must not change what is counted or logged
-                         "cli_flags": rs.choice([[], [], ["-q"], ["-v"], ["-v", "-v"], ["-q", "-q"]])},
+                         "cli_flags": rs.choice([[], [], ["-q"], ["-v"], ["-v", "-v"], ["-q", "-q"]]),
+                         "cov": rs.random() < 0.2},
             "repairs": repairs}
 
 
@@ -240,6 +241,28 @@ def execute(case, scratch):
                 return {"verdict": "violation", "stats": stats,
                         "violation": {"class": "printed_totals_differ",
                                       "detail": {"printed": totals, "issued": want}}}
+        # the cbi-cov front end analyses one database: its log must carry that platform's warnings
+        if sched.get("cov") and world["platforms"]:
+            p0 = world["platforms"][0]
+            root = os.path.join(top, world["root"])
+            w1 = dict(world)
+            w1["platforms"] = [p0]
+            m1 = refmodel.Model(w1, top)
+            ev1 = m1.evaluate()
+            exp1 = expected_events(w1, top, m1, ev1)
+            cres = runners.run_fresh("cli_run", {"top": top, "cwd": root, "module": "codebasin.coverage",
+                                                 "argv": ["compute", "-S", root, "-o", os.path.join(top, "cov.json"),
+                                                          os.path.join(top, p0["db"])], "keep": ["cbi.log"]})
+            stats["cli_runs"] += 1
+            if cres["rc"] != 0:
+                return {"verdict": "violation", "stats": stats,
+                        "violation": {"class": "cbi_cov_failed", "detail": {"rc": cres["rc"], "err": cres["err"][-500:]}}}
+            issued = [m for m in parse_log_warnings(cres["files"].get("cbi.log", "")) if not is_meta(m)]
+            problems = match_records(issued, exp1)
+            if problems:
+                return {"verdict": "violation", "stats": stats,
+                        "violation": {"class": "cbi_cov_log_differs_from_model." + problems[0][0],
+                                      "detail": {"problems": problems[:6], "n_records": len(issued)}}}
         return {"verdict": "ok", "stats": stats, "nontrivial": nev > 0,
                 "obs_digest": core.jdigest([obs["attr"], sorted(obs["events"])])}
     finally:
